@@ -79,6 +79,35 @@ def cmp_eval_table(prog):
                 if y not in seen and len(b.pred(y)) <= 1:
                     seen.add(y)
                     st.append(y)
+    if len(tab) < len(t["targets"]):
+        # arms that only *choose* the comparator (a fn item stored in a local) and share one cmp_dispatch call afterwards
+        shared = None
+        for bi2, tt in b.calls():
+            if strip_generics(mir.callee_name(tt) or "").endswith("nodes::cmp_dispatch") and b.dominates(bb, bi2) and all(bi2 != v2[1] for v2 in tab.values()):
+                if len(b.pred(bi2)) > 1 or any(len(b.pred(p)) > 1 for p in G.blocks_between(b, bb, bi2) if p != bb):
+                    shared = (bi2, tt)
+        if shared is not None:
+            base_items = fn_items_in(prog, b, shared[1]["args"][0])
+            for val, tb in t["targets"]:
+                v = names.get(int(val), "?")
+                if v in tab:
+                    continue
+                x = tb
+                hops = 0
+                chosen = None
+                while hops < 6:
+                    hops += 1
+                    for st2 in b.blocks[x]["stmts"]:
+                        if st2["k"] == "assign" and not st2["lhs"]["p"] and st2["rv"]["k"] in ("use", "cast"):
+                            c = op_const(st2["rv"]["op"])
+                            if c is not None and "fn" in c:
+                                chosen = strip_generics(c.get("res") or c["fn"])
+                    nx = b.succ(x)
+                    if chosen or len(nx) != 1 or len(b.pred(nx[0])) > 1:
+                        break
+                    x = nx[0]
+                if chosen:
+                    tab[v] = (base_items + [chosen], shared[0])
     return tab, b
 
 
